@@ -655,5 +655,11 @@ def elementwise(ctx):
     return res
 
 
-RULES = [formula_law, formula_dispatch, arity, lookup_literal, abbe,
+def no_stale(ctx):
+    from .common import stale_cache
+    return stale_cache(ctx, 'NO-STALE-STATE', ['MaterialFile', 'Material', 'AbbeMaterial', 'IdealMaterial'],
+                       'the index returned belongs to an earlier query', min_methods=5)
+
+
+RULES = [no_stale, formula_law, formula_dispatch, arity, lookup_literal, abbe,
          elementwise]
